@@ -112,7 +112,9 @@ func (r *runner) answerErr() bool {
 	if r.f.Getter.Outstanding() == nil {
 		return false
 	}
-	r.f.Getter.Answer(nil, syncfx.ErrScripted)
+	k := r.errs % len(syncfx.ErrKinds) // the kind of error must not matter
+	r.f.Getter.Answer(nil, syncfx.ErrKinds[k])
+	r.w.Count("getter_error_kind", syncfx.ErrKindNames[k])
 	r.errs++
 	r.rec("(DAnswer AErr)", 0, "answer_err")
 	return true
@@ -240,7 +242,7 @@ func TestC07(t *testing.T) {
 	w := emit.NewWriter("Model.Verify Model.Ranges Model.Syncer Oracle.C07", "case07", "chk07")
 	w.PerShard(40)
 	w.Rule = "scripts over a real Syncer+Store in virtual time, generated adaptively at each quiescence: valid heads delivered adjacent / skipping 2..131 / stale, " +
-		"while idle or while a range request is outstanding (bursts, gapped pending), Head()-learned heads, answers = prefix of length 1..requested or error runs; " +
+		"while idle or while a range request is outstanding (bursts, gapped pending), Head()-learned heads, answers = prefix of length 1..requested or error runs (errors of every kind: plain, wrapping ErrNotFound / context.Canceled / DeadlineExceeded); " +
 		"every script ends by draining with full answers; distinct by scenario class; non-trivial when at least one range request was made"
 	nRandom := 110
 	if emit.Thorough() {
@@ -304,6 +306,16 @@ func TestC07(t *testing.T) {
 			r.answerErr()
 			r.deliver(r.newest+3, "deliver_idle")
 			r.drain()
+		}},
+		{"error_kinds_then_completing_sync", func(r *runner, rng *emit.Rand) {
+			// an error of each kind aborts one attempt; the next learned head completes the sync
+			for k := 0; k < len(syncfx.ErrKinds); k++ {
+				r.deliver(r.newest+9, "deliver_idle")
+				r.answer(3)
+				r.answerErr()
+				r.deliver(r.newest+1, "deliver_idle")
+				r.drain()
+			}
 		}},
 		{"error_then_next_head", func(r *runner, rng *emit.Rand) {
 			r.deliver(r.newest+20, "deliver_idle")
